@@ -36,10 +36,10 @@ def constructGeomCompT4(dicVol, dic_cellMCNP):
         else:
             volID = key
         density = dic_cellMCNP[volID].density
-        if density is None:
-            materialName = dic_cellMCNP[volID].materialID
-        else:
-            materialName = dic_cellMCNP[volID].materialID + '_' + density
+        # same spelling of the material number as in constructCompositionT4
+        materialName = str(int(dic_cellMCNP[volID].materialID))
+        if density is not None:
+            materialName += '_' + density
         if materialName not in dic_partialGeomComp:
             dic_partialGeomComp[materialName] = []
         dic_partialGeomComp[materialName].append(key)
